@@ -44,7 +44,11 @@ func Fill(dir string, off int, b []byte) {
 
 // Policy describes how one direction of the network cuts the byte stream.
 type Policy struct {
-	Mode    string `json:"mode"`  // whole | fixed | byte | random | script
+	// whole | fixed | byte | random | script | cutat.  cutat: List holds ABSOLUTE offsets in this direction's byte
+	// stream at which segment boundaries fall; bytes between two boundaries arrive as ONE segment even if
+	// they were written by separate writes (the pump holds them back until the boundary is reached, or
+	// until nothing new has been written for 20 ms).
+	Mode    string `json:"mode"`
 	K       int    `json:"k"`     // fixed: segment size
 	List    []int  `json:"list"`  // script: segment sizes, then whole
 	Seed    int64  `json:"seed"`  // random
@@ -56,12 +60,12 @@ type Policy struct {
 
 // Script is one session.
 type Script struct {
-	CW    []int  `json:"cw"`   // application writes of the client, in order
-	SW    []int  `json:"sw"`   // application writes of the server
-	C2S   Policy `json:"c2s"`  // network policy client -> server
+	CW    []int  `json:"cw"`  // application writes of the client, in order
+	SW    []int  `json:"sw"`  // application writes of the server
+	C2S   Policy `json:"c2s"` // network policy client -> server
 	S2C   Policy `json:"s2c"`
-	RBuf  []int  `json:"rbuf"` // application read buffer sizes (cycled); default 4096
-	Lock  bool   `json:"lockstep"` // writers alternate (client write, server write, ...) instead of running free
+	RBuf  []int  `json:"rbuf"`         // application read buffer sizes (cycled); default 4096
+	Lock  bool   `json:"lockstep"`     // writers alternate (client write, server write, ...) instead of running free
 	WaitQ bool   `json:"quiesce_each"` // wait for quiescence (and log it) after every write
 	// Tap, if set, sees every byte an endpoint puts on the wire (dir, bytes), in order.
 	Tap func(dir string, b []byte) `json:"-"`
@@ -80,6 +84,7 @@ type side struct {
 	writes  []int
 	wdone   int64 // bytes whose Write returned
 	deliv   int64 // bytes this side's reader has received (of the OTHER direction)
+	rdEnded int32 // the reader of this side has ended (its Read returned an error)
 	firstWr chan struct{}
 	once    sync.Once
 }
@@ -99,8 +104,8 @@ func Run(w *vt.Writer, mkClient, mkServer Maker, sc *Script, after func(l *wire.
 	sv := &side{name: "s", dirOut: "s2c", raw: l.B, writes: sc.SW, firstWr: make(chan struct{})}
 	stop := make(chan struct{})
 	var pumps sync.WaitGroup
-	var pumping int32 // pumps currently holding taken-but-undelivered bytes
-	pump := func(src *side, dst *side, p Policy) {
+	var pumpingA, pumpingB int32 // a pump currently holds taken-but-undelivered bytes
+	pump := func(src *side, dst *side, p Policy, pumping *int32) {
 		defer pumps.Done()
 		rng := rand.New(rand.NewSource(p.Seed + 1))
 		list := append([]int{}, p.List...)
@@ -109,6 +114,69 @@ func Run(w *vt.Writer, mkClient, mkServer Maker, sc *Script, after func(l *wire.
 			case <-src.firstWr:
 			case <-stop:
 				return
+			}
+		}
+		if p.Mode == "cutat" {
+			pos := 0
+			var hold []byte
+			idleSince := time.Now()
+			for {
+				select {
+				case <-stop:
+					return
+				default:
+				}
+				if src.raw.Pending() > 0 {
+					atomic.StoreInt32(pumping, 1)
+					b := src.raw.Take()
+					if sc.Tap != nil {
+						sc.Tap(src.dirOut, b)
+					}
+					hold = append(hold, b...)
+					idleSince = time.Now()
+				} else {
+					if len(hold) == 0 {
+						if src.raw.State().Closed {
+							dst.raw.DeliverEOF()
+							return
+						}
+						src.raw.WaitOut(1, 5*time.Millisecond)
+						continue
+					}
+					time.Sleep(200 * time.Microsecond)
+				}
+				for len(hold) > 0 {
+					for len(list) > 0 && list[0] <= pos {
+						list = list[1:]
+					}
+					if len(list) == 0 {
+						if time.Since(idleSince) < 2*time.Millisecond { // behind the last boundary: let writes coalesce briefly
+							break
+						}
+						dst.raw.Deliver(hold)
+						pos += len(hold)
+						hold = nil
+						atomic.StoreInt32(pumping, 0)
+						break
+					}
+					if pos+len(hold) >= list[0] {
+						k := list[0] - pos
+						dst.raw.Deliver(hold[:k])
+						hold = hold[k:]
+						pos += k
+						if len(hold) == 0 {
+							atomic.StoreInt32(pumping, 0)
+						}
+						continue
+					}
+					if time.Since(idleSince) > 20*time.Millisecond { // the boundary cannot be reached now
+						dst.raw.Deliver(hold)
+						pos += len(hold)
+						hold = nil
+						atomic.StoreInt32(pumping, 0)
+					}
+					break
+				}
 			}
 		}
 		for {
@@ -128,7 +196,7 @@ func Run(w *vt.Writer, mkClient, mkServer Maker, sc *Script, after func(l *wire.
 			if p.DelayUs > 0 {
 				time.Sleep(time.Duration(p.DelayUs) * time.Microsecond)
 			}
-			atomic.AddInt32(&pumping, 1)
+			atomic.StoreInt32(pumping, 1)
 			buf := src.raw.Take()
 			if sc.Tap != nil {
 				sc.Tap(src.dirOut, buf)
@@ -166,12 +234,12 @@ func Run(w *vt.Writer, mkClient, mkServer Maker, sc *Script, after func(l *wire.
 				dst.raw.Deliver(buf[:k])
 				buf = buf[k:]
 			}
-			atomic.AddInt32(&pumping, -1)
+			atomic.StoreInt32(pumping, 0)
 		}
 	}
 	pumps.Add(2)
-	go pump(cl, sv, sc.C2S)
-	go pump(sv, cl, sc.S2C)
+	go pump(cl, sv, sc.C2S, &pumpingA)
+	go pump(sv, cl, sc.S2C, &pumpingB)
 
 	// handshakes
 	type hres struct {
@@ -256,6 +324,7 @@ func Run(w *vt.Writer, mkClient, mkServer Maker, sc *Script, after func(l *wire.
 			}
 			if err != nil {
 				w.Emit(vt.Ev{"event": "ReadEnd", "d": dirIn, "err": err.Error()})
+				atomic.StoreInt32(&me.rdEnded, 1)
 				return
 			}
 		}
@@ -324,8 +393,10 @@ func Run(w *vt.Writer, mkClient, mkServer Maker, sc *Script, after func(l *wire.
 		for time.Now().Before(deadline) {
 			a, b := l.A.State(), l.B.State()
 			dc, ds := atomic.LoadInt64(&cl.deliv), atomic.LoadInt64(&sv.deliv)
-			if a.Outbox == 0 && b.Outbox == 0 && a.Inbox == 0 && b.Inbox == 0 && a.Parked && b.Parked &&
-				atomic.LoadInt32(&pumping) == 0 && dc == lastC && ds == lastS {
+			aDone := a.Parked || atomic.LoadInt32(&cl.rdEnded) == 1
+			bDone := b.Parked || atomic.LoadInt32(&sv.rdEnded) == 1
+			if a.Outbox == 0 && b.Outbox == 0 && (a.Inbox == 0 || !a.Parked && aDone) && (b.Inbox == 0 || !b.Parked && bDone) && aDone && bDone &&
+				atomic.LoadInt32(&pumpingA) == 0 && atomic.LoadInt32(&pumpingB) == 0 && dc == lastC && ds == lastS {
 				stable++
 				if stable >= 3 {
 					w.Emit(vt.Ev{"event": "Quiesce", "d": "c2s", "delivered": ds, "wdone": atomic.LoadInt64(&cl.wdone)})
